@@ -36,6 +36,7 @@ func (e entrySpec) rng() rng {
 type fileSpec struct {
 	Map    []entrySpec `json:"map"`
 	Notdef []entrySpec `json:"notdef,omitempty"`
+	Odd    bool        `json:"odd,omitempty"` // a file of the odd-range family (odd.go): judged for agreement only
 
 	mr []rng // Map[i].rng(), filled by prep
 }
@@ -321,6 +322,10 @@ func judgeTUFile(stage string, sp *space, spec *fileSpec, covered, probes []stri
 }
 
 func (rn *runner) fileCase(kind string, sp *space, spec *fileSpec, cfgs []config) {
+	if spec.Odd {
+		rn.oddFileCase(kind, sp, spec, cfgs)
+		return
+	}
 	r := rn.r
 	r.Eval(1)
 	spec.prep()
